@@ -39,6 +39,7 @@ import (
 	"sort"
 	"strconv"
 	"strings"
+	"sync/atomic"
 	"time"
 
 	"github.com/go-logr/logr"
@@ -454,7 +455,7 @@ func (w *world) admit(o *unstructured.Unstructured, ver, pol string, probe bool)
 				UID:       "req",
 				Kind:      metav1.GroupVersionKind{Group: gvk.Group, Version: gvk.Version, Kind: gvk.Kind},
 				Resource:  metav1.GroupVersionResource{Group: gvk.Group, Version: gvk.Version, Resource: strings.ToLower(gvk.Kind) + "s"},
-				Name:      o.GetName(),
+				Name:      collectionName(o.GetName()),
 				Operation: admissionv1.Delete,
 				OldObject: runtime.RawExtension{Raw: raw},
 				Options:   runtime.RawExtension{Raw: rawOpts},
@@ -1283,4 +1284,16 @@ func main() {
 		fmt.Fprintf(os.Stderr, "%d runs hung\n", sum.Hung)
 		os.Exit(2)
 	}
+}
+
+// collectionName: every other admission request is shaped the way kube-apiserver shapes the per-item requests of a
+// collection delete (kubectl delete <kind> --all): oldObject is the item, but the request's name is EMPTY. Whoever looks
+// the object up by the request's name instead of the object's finds nothing (added after the seeded change C19-m7 was missed).
+var admissionSeq atomic.Int64
+
+func collectionName(name string) string {
+	if admissionSeq.Add(1)%2 == 0 {
+		return ""
+	}
+	return name
 }
